@@ -238,7 +238,9 @@ def coerce(x, want):
 class Printer:
     """Prints a set of terms as define-funs with sharing."""
 
-    def __init__(self):
+    def __init__(self, abstract_nonlinear=False):
+        self.abstract_nonlinear = abstract_nonlinear
+        self.abstracted = 0
         self.memo = {}
         self.out = []
         self.vars = {}
@@ -288,6 +290,15 @@ class Printer:
             body = '(%s %s)' % (k[0], ' '.join(self.p(a, 'Bool') for a in k[1:]))
         elif k[0] == 'neg':
             body = '(- %s)' % self.p(k[1], s)
+        elif self.abstract_nonlinear and ((k[0] == '*' and is_sym(k[1]) and is_sym(k[2])) or (k[0] == '/' and is_sym(k[2]))):
+            # sound over-approximation: a non-linear product / quotient becomes an unconstrained constant
+            nm = '|nl!%d|' % i
+            self.out.append('(declare-const %s %s)' % (nm, s))
+            if k[0] == '*' and k[1] == k[2]:
+                self.out.append('(assert (>= %s 0.0))' % nm)     # a square is non-negative
+            self.abstracted += 1
+            self.memo[i] = nm
+            return nm
         elif k[0] in ('+', '-', '*', '/'):
             body = '(%s %s %s)' % (k[0], self.p(k[1], s), self.p(k[2], s))
         elif k[0] in ('div', 'mod'):
